@@ -431,6 +431,15 @@ func run1(t *testing.T, c Case) (res Result) {
 				lc.Busy = func() bool { tries++; time.Sleep(500 * time.Microsecond); return tries < 4 }
 				x := lc.RunRTx(pager.RTx{Mods: []uint32{3}, Final: "DELETE", Outcome: "commit"}, w.img)
 				lc.Close()
+				if !x.Committed && posOf(P) == before {
+					// the same writer with synchronous=OFF: its journal header is valid from the first write, it gets as far
+					// as RESERVED, is refused EXCLUSIVE and rolls back - which publishes nothing either
+					lc2 := pager.NewConn(P.M, "db", 407, ps)
+					tries2 := 0
+					lc2.Busy = func() bool { tries2++; time.Sleep(500 * time.Microsecond); return tries2 < 4 }
+					x = lc2.RunRTx(pager.RTx{Mods: []uint32{3}, SyncMode: 2, Final: "DELETE", Outcome: "commit"}, w.img)
+					lc2.Close()
+				}
 				if x.Committed || posOf(P) != before {
 					viol("C13/local-commit-while-halted", "after the holder switched the database to a rollback journal a local transaction committed on the primary while the halt lock is held (primary %s -> %s)", before, posOf(P))
 					return
@@ -465,6 +474,8 @@ func run1(t *testing.T, c Case) (res Result) {
 			// log as a first opener does, it trusts the index it finds - also the one LiteFS publishes after an apply
 			keep := pager.NewConn(R.M, "db", 404, ps)
 			defer keep.Close()
+			keepTries := 0
+			keep.Busy = func() bool { keepTries++; time.Sleep(time.Millisecond); return keepTries < 500 }
 			if w.wal {
 				if _, err := keep.ReadImageWAL(); err != nil {
 					res.Harness = "long-lived reader: " + err.Error()
